@@ -62,6 +62,8 @@ namespace
         }
         static constexpr bool releases = true;
         static constexpr bool arrays   = PT::value;
+        // a failed growth leaves the pool exactly as it was: the rest of the history is the one of the run without failure
+        static constexpr bool same_history_after_failure = true;
     };
     template <class PT, class BD>
     struct coll_kind
@@ -93,6 +95,10 @@ namespace
         }
         static constexpr bool releases = true;
         static constexpr bool arrays   = PT::value;
+        // a collection hands the rest of its current block to the requesting free list *before* it asks for the next block; if that
+        // request fails the rest stays there (nothing is lost, the retry is served from it), so later growths happen at other
+        // points than in the run without failure and the peak upstream need may legitimately differ
+        static constexpr bool same_history_after_failure = false;
     };
     template <bool Blk>
     struct stack_kind
@@ -127,6 +133,7 @@ namespace
         }
         static constexpr bool releases = false;
         static constexpr bool arrays   = true;
+        static constexpr bool same_history_after_failure = true;
     };
 
     long injected = 0, fired = 0, survived = 0;
@@ -144,7 +151,7 @@ namespace
         auto h       = make_probe("raw", true);
         h->fail_at   = fail_at;
         h->fail_kind = fail_kind;
-        if (fail_at >= 0)
+        if (fail_at >= 0 && K::same_history_after_failure)
             h->budget = g_budget; // the same history needs no more upstream memory than without the failure
         shadow             sh;
         false_report_guard frg;
@@ -180,6 +187,7 @@ namespace
                 op("%s %zux%zu/%zu", q.arr ? "array" : "node", q.count, q.size, q.align);
                 void* p      = nullptr;
                 auto  fired0 = h->fired;
+                auto  rb0    = h->refused_by_budget;
                 auto  oom0   = hl().oom;
                 auto  mn0 = tr::max_node_size(*obj), ma0 = tr::max_array_size(*obj);
                 try
@@ -195,6 +203,9 @@ namespace
                 catch (std::bad_alloc& e)
                 {
                     h->check();
+                    if (h->fired == fired0 && h->refused_by_budget != rb0)
+                        viol("C03", "C03/" + kind + "/needs-more-upstream-after-failure",
+                             "after an upstream failure the same history asks the upstream for more memory than it needs without the failure");
                     if (h->fired == fired0)
                         viol("C03", "C03/" + kind + "/bad_alloc-without-cause", "%s thrown although the upstream did not fail and the request was valid",
                              e.what());
